@@ -17,6 +17,6 @@ open MetricsVerif.Generated.Cfg
 
 /-- SOURCE FACT: conditional compilation and duplicate definitions in the files C11 is anchored in are exactly these -/
 theorem cfg_C11 : inventory_C11 = [
-  ("metrics-exporter-tcp/src/lib.rs", ["cfg_attr(docsrs,feature(doc_cfg),deny(rustdoc::broken_intra_doc_links))"], ["from x2", "increment x2", "new x3", "write_to_client x2"])] := by decide
+  ("metrics-exporter-tcp/src/lib.rs", ["cfg(not(metrics_verif))", "cfg_attr(docsrs,feature(doc_cfg),deny(rustdoc::broken_intra_doc_links))"], ["from x2", "increment x2", "new x3", "write_to_client x2"])] := by decide
 
 end MetricsVerif.SrcCfg
